@@ -334,4 +334,145 @@ theorem load_moves_id_flat {doc : Load.Doc} {F : Load.Flat} (h : Load.load doc =
     subst hF
     exact ⟨e.toEq, by simp only [Load.Loaded.flat]; exact List.mem_append_left _ (List.mem_append_left _ (List.mem_map.mpr ⟨e, he, rfl⟩)), rfl⟩
 
+-- ================================================================================================ non-vacuity
+section Examples
+open Load in
+/-- a (owns `x`, `x = 1 V`) ⊃ b (relays `x`) ⊃ c (reads `x`, carries the annotation `ann_x`; `y = x + 1 V`): a relay
+    chain in ONE unit, the id on the far end -/
+def chainDoc : Load.Doc :=
+  { units := []
+    comps := [
+      ⟨"a", [⟨"x", "volt", .none, .out, none, none⟩], [⟨.var "x", .num 1 "volt"⟩]⟩,
+      ⟨"b", [⟨"x", "volt", .inn, .out, none, none⟩], []⟩,
+      ⟨"c", [⟨"x", "volt", .inn, .none, none, some "ann_x"⟩, ⟨"y", "volt", .none, .none, none, none⟩],
+        [⟨.var "y", .add (.var "x") (.num 1 "volt")⟩]⟩]
+    encaps := [(none, "a"), (some "a", "b"), (some "b", "c")]
+    conns := [⟨"b", "x", "c", "x"⟩, ⟨"a", "x", "b", "x"⟩] }
+
+def chainUnits : Registry × Units.Store := (Units.builtinRegistry, { id := 0, known := [] })
+def chainVt : Load.VarTable := Load.varTable chainUnits.2 chainDoc.comps
+def chainPar : Load.ParentMap :=
+  match Load.buildParents (chainDoc.comps.map (·.name)) chainDoc.encaps [] [] with
+  | .ok p => p
+  | .error _ => []
+def chainDl : List (Load.VRef × Load.VRef) :=
+  match Load.directAll (chainDoc.comps.map (·.name)) chainPar chainVt chainDoc.conns with
+  | .ok d => d
+  | .error _ => []
+/-- resolution with the repaired rule … -/
+def chainSt : Load.CState :=
+  match Load.loopF (Load.stepConn chainUnits.1 chainVt) 10 chainDl 0 (Load.initState chainVt) with
+  | some (.ok st) => st
+  | _ => Load.initState chainVt
+/-- … and with the rule before commit df25620 -/
+def chainStToday : Load.CState :=
+  match Load.loopF (Load.stepConnToday chainUnits.1 chainVt) 10 chainDl 0 (Load.initState chainVt) with
+  | some (.ok st) => st
+  | _ => Load.initState chainVt
+
+/-- does the variable occur in an equation (either side, also under a derivative)? -/
+def occurs (v : Load.VRef) (eqs : List Load.FlatEq) : Bool :=
+  eqs.any (fun e => (e.lhs :: e.rhs.leaves).any (fun l => match l with
+    | .var a => a == v
+    | .diff x t => x == v || t == v))
+
+theorem chain_connect : Load.connect chainUnits.1 chainVt chainDl = .ok chainSt :=
+  Load.connect_of_fuel 10 (by rw [← Load.loopF_stepConn]; decide +kernel)
+
+/-- the loop really rotates (the first connection listed cannot be resolved first) and both connections have factor 1 -/
+example : chainDl = [(("b", "x"), ("c", "x")), (("a", "x"), ("b", "x"))] ∧ chainSt.convs = [] ∧
+    chainSt.asg ("c", "x") = some ("a", "x") := by decide +kernel
+
+/-- **before the repair** the id written on `c$x` ended on the relay variable `b$x`, which occurs in no equation of the
+    flat model, while the quantity is known to the equations as `a$x` (= `rootOf … c$x`) -/
+theorem today_relay_unused :
+    Load.cmetaOf chainStToday ("b", "x") = some "ann_x" ∧ Load.cmetaOf chainStToday ("a", "x") = none ∧
+    Load.rootOf chainStToday ("c", "x") = ("a", "x") ∧
+    occurs ("b", "x") ((⟨chainUnits.1, chainUnits.2, chainVt, chainPar, chainDl, chainStToday⟩ : Load.Loaded).flat chainDoc).eqs = false ∧
+    occurs ("a", "x") ((⟨chainUnits.1, chainUnits.2, chainVt, chainPar, chainDl, chainStToday⟩ : Load.Loaded).flat chainDoc).eqs = true := by
+  decide +kernel
+
+/-- **after the repair** it is on `a$x`: `load_moves_id` applied to the same document -/
+example : Load.cmetaOf chainSt ("a", "x") = some "ann_x" ∧ Load.cmetaOf chainSt ("b", "x") = none ∧
+    Load.home chainSt ("c", "x") = ("a", "x") ∧ Load.docId chainVt ("c", "x") = some "ann_x" ∧
+    occurs ("a", "x") ((⟨chainUnits.1, chainUnits.2, chainVt, chainPar, chainDl, chainSt⟩ : Load.Loaded).flat chainDoc).eqs = true := by
+  decide +kernel
+
+example : Load.cmetaOf chainSt (Load.home chainSt ("c", "x")) = some "ann_x" :=
+  (load_moves_id chain_connect).2.1 ("c", "x") "ann_x" (by decide +kernel)
+
+/-- the same chain with a second id on the source `a$x` -/
+def chainVt2 : Load.VarTable :=
+  chainVt.map (fun (r, i) => if r = ("a", "x") then (r, { i with cmeta := some "src" }) else (r, i))
+
+def chainSt2Today : Load.CState :=
+  match Load.loopF (Load.stepConnToday chainUnits.1 chainVt2) 10 chainDl 0 (Load.initState chainVt2) with
+  | some (.ok st) => st
+  | _ => Load.initState chainVt2
+
+/-- ids on both the source and the far end: refused (ValueError) — as the direct connection `a$x → b$x` with ids on
+    both ends always was; before the repair this document loaded, with `ann_x` on the unused relay -/
+example : Load.loopF (Load.stepConn chainUnits.1 chainVt2) 10 chainDl 0 (Load.initState chainVt2) =
+      some (.error (.valueError "Cannot transfer cmeta id: target variable already has a cmeta id")) ∧
+    Load.loopF (Load.stepConnToday chainUnits.1 chainVt2) 10 chainDl 0 (Load.initState chainVt2) = some (.ok chainSt2Today) ∧
+    Load.cmetaOf chainSt2Today ("b", "x") = some "ann_x" ∧ Load.cmetaOf chainSt2Today ("a", "x") = some "src" := by
+  decide +kernel
+
+/-- a history on an API-built model: V (id `V`, two terms), t (id `t`), b; clash with the model id; transfer; remove -/
+def demoOps : List AOp :=
+  [.base (.addVariable "V" (some "V") none), .base (.addVariable "t" (some "t") none), .base (.addVariable "b" none none),
+   .addRdf ⟨"V", bqbiolIs, .uri "https://chaste.comlab.ox.ac.uk/cellml/ns/oxford-metadata#membrane_voltage"⟩,
+   .addRdf ⟨"V", bqbiolIs, .uri "http://example.org/onto#V"⟩,
+   .addRdf ⟨"t", bqbiolIs, .uri "https://chaste.comlab.ox.ac.uk/cellml/ns/oxford-metadata#time"⟩,
+   .addRdf ⟨"mid", bqbiolIs, .uri "http://example.org/onto#model"⟩]
+
+def demo : AState := arun (some "mid") demoOps
+def oxV : RNode := .uri "https://chaste.comlab.ox.ac.uk/cellml/ns/oxford-metadata#membrane_voltage"
+
+example : demo.m.live = [0, 1, 2] ∧ getVariableByCmetaId demo.m "V" = some 0 ∧ hasCmetaId demo.m "mid" = true ∧
+    getVariableByCmetaId demo.m "mid" = none ∧ byTerm demo oxV = .ok 0 ∧
+    termsOf demo 0 none = ["membrane_voltage", "V"] ∧
+    termsOf demo 0 (some "http://example.org/") = ["V"] ∧
+    byRdf demo bqbiolIs (some (.uri "http://example.org/onto#model")) = .error .keyError ∧
+    byRdf demo bqbiolIs (some (.uri "http://example.org/onto#V")) = .ok [0] := by decide +kernel
+
+/-- clashing ids are refused: an id in use, and the model's own id -/
+example : (astep demo (.base (.addVariable "c" (some "V") none))).2 = .raised .valueError ∧
+    (astep demo (.base (.addVariable "c" (some "mid") none))).2 = .raised .valueError ∧
+    (astep demo (.base (.addVariable "V" none none))).2 = .raised .valueError := by decide +kernel
+
+/-- transfer V → b, then the term leads to b (hypotheses of `transfer_moves` are met) … -/
+example : byTerm (astep demo (.base (.transferCmetaId 0 2))).1 oxV = .ok 2 :=
+  ((transfer_moves demo (ainv_reachable _ _) 0 2 (by decide +kernel) (by decide +kernel)).2 "V" (by decide +kernel)
+    (by decide +kernel)).2.2.2.2.2 oxV (by decide +kernel)
+
+/-- … a transfer onto an annotated variable is refused … -/
+example : astep demo (.base (.transferCmetaId 0 1)) = (demo, .raised .valueError) := by decide +kernel
+
+/-- … conversion with `move_annotations`: the new variable 3 carries `V` and the term leads to it; without: nothing moves -/
+example : getVariableByCmetaId (astep demo (.convert 0 true (.input [0]))).1.m "V" = some 3 ∧
+    byTerm (astep demo (.convert 0 true (.input [0]))).1 oxV = .ok 3 ∧
+    (astep demo (.convert 0 true (.input [0]))).1.m.live = [0, 1, 2, 3, 4] ∧
+    nameOfVar (astep demo (.convert 0 true (.input [0]))).1.m 3 = "V_converted" ∧
+    nameOfVar (astep demo (.convert 0 true (.input [0]))).1.m 4 = "V_orig_deriv" ∧
+    byTerm (astep demo (.convert 0 false .output)).1 oxV = .ok 0 := by decide +kernel
+
+/-- … `remove_variable` takes the annotations along: 2 of the 4 triples stay, the id is free again -/
+example : (astep demo (.base (.removeVariable 0))).1.rdf.length = 2 ∧
+    hasCmetaId (astep demo (.base (.removeVariable 0))).1.m "V" = false ∧
+    byTerm (astep demo (.base (.removeVariable 0))).1 oxV = .error .keyError := by decide +kernel
+
+/-- `add_cmeta_id`: variable `b` (no id) meets the hypotheses of `addCmetaId_fresh`; a variable named like an id in use
+    (`V` is taken, `V_` is taken) gets `V__` — stated through the theorem, since `String.replace` does not reduce in
+    the kernel -/
+example : ∃ c k, c = cand (("b" : String).replace "$" "__") k ∧ hasCmetaId demo.m c = false := by
+  obtain ⟨c, k, he, _, hf, _⟩ := addCmetaId_fresh demo (ainv_reachable _ _) 2 (by decide +kernel) (by decide +kernel)
+  exact ⟨c, k, by rw [he]; rfl, hf⟩
+
+example : freeCmeta demo.m "V" (demo.m.cmetaMap.length + 1) = some "V_" ∧
+    freeCmeta (astep demo (.base (.addVariable "x" (some "V_") none))).1.m "V" 4 = some "V__" ∧
+    freeCmeta demo.m "mid" 3 = some "mid_" := by decide +kernel
+
+end Examples
+
 end Cellml.Props.C13
